@@ -86,7 +86,8 @@ def generate(rng, focus, tier="quick"):
     cuts = sorted(set(rng.choice(days) if rng.random() < 0.7 else rng.randrange(lo - 1, hi + 1)
                       for _ in range(rng.randrange(1, 4))))
     cfg = {"use_symbols": rng.random() < 0.5, "cuts": cuts, "perm_seed": rng.randrange(1 << 30),
-           "handler_universe": rng.choice([None, None, "empty", "subset", "late"])}
+           "handler_universe": rng.choice([None, None, "empty", "subset", "late"]),
+           "dir_suffix": rng.choice(mk.DIR_SUFFIXES)}
     plan = {"world": NAME, "cfg": cfg, "market": market, "ops": ops}
     if rng.random() < 0.3:
         # a second data source behind the same handler: the handler must return the first non-NaN answer
@@ -200,7 +201,7 @@ def execute(plan, focus, trace=False):
         ctx.fault("second_data_source")
     dirs = []
     try:
-        d0 = mk.scratch_dir()
+        d0 = mk.scratch_dir(cfg.get("dir_suffix", ""))
         dirs.append(d0)
         try:
             src, handler = load_source(market, cfg, d0, market2)
@@ -264,7 +265,7 @@ def execute(plan, focus, trace=False):
                 for cut in cfg["cuts"]:
                     m2 = truncated(market, cut, prng)
                     m22 = truncated(market2, cut, prng) if market2 is not None else None
-                    d2 = mk.scratch_dir()
+                    d2 = mk.scratch_dir(cfg.get("dir_suffix", ""))
                     dirs.append(d2)
                     try:
                         src2, h2 = load_source(m2, cfg, d2, m22)
